@@ -240,11 +240,35 @@ def run_case(args):
             vcs = list(p.vcs)
             if p.outcome[0] == "raise":
                 vcs.append(("no-unexpected-exception(%s)" % p.outcome[1], list(p.pc), z3.BoolVal(False)))
+            # vacuity guard: a path whose condition contradicts the (true) axioms is infeasible; its
+            # obligations are not counted
+            if vcs and axioms_packs:
+                hy = vcs[-1][1]
+                sg = z3.Solver()
+                sg.set("timeout", 5000)
+                for x in hy:
+                    sg.add(x)
+                for a in instantiate_axioms(list(hy), axioms_packs):
+                    sg.add(a)
+                if sg.check() == z3.unsat:
+                    out["infeasible_paths"] = out.get("infeasible_paths", 0) + 1
+                    continue
             for (vname, hyps, goal) in vcs:
                 nvc += 1
                 rec = {"vc": vname, "path": pi}
                 ax = instantiate_axioms(list(hyps) + [goal], axioms_packs)
-                extra = []
+                if vname.startswith("ring:") and z3.is_eq(goal):
+                    from . import ring
+                    tr = time.time()
+                    try:
+                        okr, det = ring.prove_identity(goal.arg(0), goal.arg(1))
+                    except Exception as e:
+                        okr, det = False, "ring crash: %s" % e
+                    if okr:
+                        rec.update(verdict="discharged", backend="ring", solver_s=round(time.time() - tr, 4), detail=det)
+                        out["vcs"].append(rec)
+                        continue
+                    rec["ring_detail"] = det
                 # known findings: exclude the recorded scope, report what is outside it
                 verdict, model, backend, dt, detail = solve_vc(hyps, goal, ax, timeout_ms)
                 rec.update(verdict=verdict, backend=backend, solver_s=round(dt, 4), detail=detail)
@@ -382,7 +406,8 @@ def crosscheck(h, case, n, seed=0):
     """run the harness natively and through the interpreter on the same
     concrete inputs; the recorded call results must agree"""
     from .interp import norm
-    rng = random.Random(seed * 7919 + hash(h.name) % 1000)
+    import zlib
+    rng = random.Random(seed * 7919 + zlib.crc32((h.name + repr(sorted(case.items()))).encode()) % 100000)
     done = 0
     tries = 0
     mism = []
